@@ -13,13 +13,19 @@ package cache
 //@ locklevel Manager.mu 30
 //@ longterm sharedCacheElem.mu write locks on caches are owned by a transaction from its first write access until Commit; write transactions touching the same caches are serialised by the storage writer lock (bbolt single writer), which is assumed
 
+// eviction (property C08) only ever drops whole caches: an entry that survives is the same
+// cache element as before, nothing is added, and no cache element is written to
 //@ func (*Manager).checkAndPrune
-//@   property C11
+//@   property C11 C08
 //@   locks 30
 //@   requires unheld(m.mu)
 //@   modifies m.sharedCaches
 //@   safety -overflow
 //@   ensures unheld(m.mu)
+//@   ensures forallv(k string, contains(m.sharedCaches, k) ==> old(contains(m.sharedCaches, k)) && m.sharedCaches[k] == old(m.sharedCaches[k]))
+//@   ensures m.maxSize == -1 ==> forallv(k string, contains(m.sharedCaches, k) == old(contains(m.sharedCaches, k)))
+//@   ensures m.maxSize == 0 ==> forallv(k string, !contains(m.sharedCaches, k))
+//@   loop 2 invariant forallv(k string, contains(m.sharedCaches, k) ==> old(contains(m.sharedCaches, k)) && m.sharedCaches[k] == old(m.sharedCaches[k]))
 //@   loop 1 invariant fresh(caches)
 //@   loop 2 invariant rangeindex >= -1
 
@@ -186,3 +192,38 @@ package cache
 //@   loop 1 invariant forallv(k K, contains(ic.items, k) ==> ic.items[k] != nil)
 //@   loop 1 invariant forallv(k K, contains(ic.items, k) && visited(k) && !ic.items[k].IsDeleted ==> calledwith(fn, k))
 //@   loop 1 invariant forallv(k K, calledwith(fn, k) ==> contains(ic.items, k) && !ic.items[k].IsDeleted)
+
+// Flush (property C08): after a successful flush nothing in the cache is ahead of the bucket -
+// every tombstone has been deleted from the bucket (with the item's own DeleteFrom, on the
+// cache's current bucket) and dropped from the map, every dirty entry has been written (WriteTo)
+// and marked clean; entries that were clean are not written and never change.
+//@ func (*ItemCache).Flush
+//@   property C08
+//@   requires unheld(ic.itemsMu) && ic.items != nil
+//@   requires forallv(k K, contains(ic.items, k) ==> ic.items[k] != nil)
+//@   requires forallv(a K, forallv(b K, a != b && contains(ic.items, a) && contains(ic.items, b) ==> ic.items[a] != ic.items[b]))
+//@   modifies ic.items, field(itemCacheElem.IsDirty), field(vectorstore.binaryQuantizedPoint.isDirty), field(vectorstore.productQuantizedPoint.isDirty), field(vamana.graphNode.isDirty), field(text.setCacheItem.isDirty)
+//@   before DeleteFrom requires contains(ic.items, arg1) && ic.items[arg1].IsDeleted && arg0 == ic.items[arg1].value && arg2 == ic.bucket
+//@   before WriteTo requires contains(ic.items, arg1) && !ic.items[arg1].IsDeleted && arg0 == ic.items[arg1].value && arg2 == ic.bucket
+//@   ensures unheld(ic.itemsMu)
+//@   ensures result == nil ==> forallv(k K, contains(ic.items, k) ==> !ic.items[k].IsDirty && !ic.items[k].IsDeleted)
+//@   ensures result == nil ==> forallv(k K, contains(ic.items, k) == (old(contains(ic.items, k)) && !old(ic.items[k].IsDeleted)))
+//@   ensures forallv(k K, old(contains(ic.items, k)) && !contains(ic.items, k) ==> calledwitharg(DeleteFrom, 1, k))
+//@   ensures result == nil ==> forallv(k K, contains(ic.items, k) && old(ic.items[k].IsDirty) ==> calledwitharg(WriteTo, 1, k))
+//@   ensures forallv(k K, contains(ic.items, k) ==> old(contains(ic.items, k)) && ic.items[k] == old(ic.items[k]) && ic.items[k].value == old(ic.items[k].value))
+//@   loop 1 invariant held(ic.itemsMu) && ic.items != nil
+//@   loop 1 invariant forallv(k K, contains(ic.items, k) ==> ic.items[k] != nil)
+//@   loop 1 invariant forallv(k K, contains(ic.items, k) && visited(k) ==> !ic.items[k].IsDirty && !ic.items[k].IsDeleted)
+//@   loop 1 invariant forallv(k K, contains(ic.items, k) ==> old(contains(ic.items, k)) && ic.items[k] == old(ic.items[k]) && ic.items[k].value == old(ic.items[k].value))
+//@   loop 1 invariant forallv(k K, old(contains(ic.items, k)) && !contains(ic.items, k) ==> old(ic.items[k].IsDeleted) && visited(k))
+//@   loop 1 invariant forallv(k K, contains(ic.items, k) && !visited(k) ==> ic.items[k].IsDeleted == old(ic.items[k].IsDeleted))
+//@   loop 1 invariant forallv(k K, old(contains(ic.items, k)) && !contains(ic.items, k) ==> calledwitharg(DeleteFrom, 1, k))
+//@   loop 1 invariant forallv(k K, contains(ic.items, k) && visited(k) && old(ic.items[k].IsDirty) ==> calledwitharg(WriteTo, 1, k))
+//@   loop 1 invariant forallv(k K, contains(ic.items, k) && !visited(k) ==> ic.items[k].IsDirty == old(ic.items[k].IsDirty))
+
+//@ func NewItemCache
+//@   property C08
+//@   pure
+//@   allocates
+//@   ensures result != nil && fresh(result) && result.items != nil && result.bucket == bucket && !result.isAllInCache && unheld(result.itemsMu)
+//@   ensures forallv(k K, !contains(result.items, k))
